@@ -6,14 +6,16 @@ from vlib.par import pmap
 
 PROPERTY = 'C11'
 LEVEL = 'other'
-TARGETS = [('editdistance_str', 'levenshtein.EditDistance._best_match'),
+TARGETS = [('editdistance_str', 'levenshtein.EditDistance._best_match'), ('nodes', 'graphtage.StringNode.edits'),
            ('editdistance', 'levenshtein.EditDistance.edits'), ('editdistance', 'levenshtein.EditDistance._add_node')]
 TRUSTED = ['textbook identity: insert/delete distance D(n,m) = n + m - 2*LCS (cited, not proved)',
            'prefix / suffix trimming preserves the distance (standard)',
            'the fringe schedule calls _best_match(r,c) after its three neighbours are final (monitored by the bounded run)']
 ASSUMPTIONS = []
 EXPLANATION = (
-    "Deductive (loop-free, full integer domain - a complete proof of the local step): EditDistance._best_match on the "
+    "Deductive: StringNode.edits returns a Match of cost 0 for equal text and of cost 1 for two different single "
+    "characters (identity of str objects is modelled as unspecified, so a comparison by `is` fails the contract), which is "
+    "the pair-cost premise of the per-character instance; then (loop-free, full integer domain - a complete proof of the local step): EditDistance._best_match on the "
     "per-character instance (penalty 0, sizes 1, pair cost 0/1) writes exactly the textbook recurrence of the "
     "insert/delete distance min(D(r-1,c-1) + (0 if equal else 2), D(r-1,c)+1, D(r,c-1)+1), never keeps a pair of "
     "different characters, realises the value with the returned predecessor and preserves adjacency of neighbouring "
@@ -79,6 +81,7 @@ def _check(pair):
 
 def witnesses(func_result, ob, repo_root, tier):
     strings = [''.join(p) for n in range(0, 5) for p in itertools.product('ab', repeat=n)]
+    strings += [''.join(p) for n in range(1, 4) for p in itertools.product('a\u20ac\u03b2', repeat=n)]
     for a in strings:
         for b in strings:
             f = _check((a, b))
@@ -99,12 +102,15 @@ def bounded(tier, seed, repo_root):
     L2, L3 = (6, 4) if tier == 'quick' else (8, 5)
     s2 = [''.join(p) for n in range(0, L2 + 1) for p in itertools.product('ab', repeat=n)]
     s3 = [''.join(p) for n in range(0, L3 + 1) for p in itertools.product('abc', repeat=n)]
-    pairs = [(a, b) for a in s2 for b in s2] + [(a, b) for a in s3 for b in s3]
+    # characters outside Latin-1 (not interned by CPython: every occurrence is a distinct object), astral and combining
+    wide = 'a\u20ac\u03b2'
+    sw = [''.join(p) for n in range(0, (4 if tier == 'quick' else 5) + 1) for p in itertools.product(wide, repeat=n)]
+    pairs = [(a, b) for a in s2 for b in s2] + [(a, b) for a in s3 for b in s3] + [(a, b) for a in sw for b in sw]
     n_ex = len(pairs)
     rnd = random.Random(seed)
     for _ in range(1500 if tier == 'quick' else 15000):
         n, m = rnd.randint(5, 24), rnd.randint(5, 24)
-        al = rnd.choice(['ab', 'abc', 'abcdefgh', 'aab'])
+        al = rnd.choice(['ab', 'abc', 'abcdefgh', 'aab', 'a\u20ac\u03b2\u4e2d', '\U0001f600\u00e9e\u0301 \n"\\', '\u03b1\u03b2\u03b3\u03b4'])
         a = ''.join(rnd.choice(al) for _ in range(n))
         b = list(a) if rnd.random() < 0.5 else [rnd.choice(al) for _ in range(m)]
         for _ in range(rnd.randint(0, 5)):
@@ -116,8 +122,8 @@ def bounded(tier, seed, repo_root):
     res = pmap(_check, pairs, repo_root, chunksize=500)
     fails = [f for fs in res for f in fs]
     return [{
-        'name': 'C11.lcs-reference', 'bound': f"all pairs of strings over {{a,b}} up to length {L2} and over {{a,b,c}} up to length {L3} "
-        f"({n_ex} pairs, exhaustive) + {len(pairs) - n_ex} seeded longer pairs with repeats and shared prefixes/suffixes",
+        'name': 'C11.lcs-reference', 'bound': f"all pairs of strings over {{a,b}} up to length {L2} and over {{a,b,c}} up to length {L3} and over {{a, U+20AC, U+03B2}} (non-Latin-1) up to length {4 if tier == 'quick' else 5} "
+        f"({n_ex} pairs, exhaustive) + {len(pairs) - n_ex} seeded longer pairs with repeats and shared prefixes/suffixes over ASCII, Greek, CJK, astral, combining and control characters",
         'evaluations': len(pairs), 'distinct_nontrivial': len({p for p in pairs if p[0] != p[1]}), 'exhaustive': True,
         'rule': 'pair of strings -> string_edit_distance refined to fix-point: kept characters == LCS length and removed+inserted '
                 '== n+m-2*LCS; non-trivial = the strings differ',
